@@ -26,18 +26,20 @@ def check(c: Check):
         'text mode with universal newlines); the freezing wrapper takes all views from the one cached contents; no '
         'open() of a text passes a newline= argument and the spooled buffer keeps "\\n". Decides clauses a-d of '
         'DESIGN.md C14; not equality of characters across representations or buffer-size boundaries.')
-    clause_a(c)
-    clause_b(c)
-    clause_b2(c)
-    clause_c(c)
-    clause_d(c)
-    clause_e(c)
-    clause_g(c)
-    clause_i(c)
-    clause_h(c)
-    clause_f(c)
     from .common import sweep_records
-    sweep_records(c, 'C14-rec', ['exactly_lib.type_val_prims.string_source', 'exactly_lib.impls.types.string_source'], floor=2)
+    # every clause is run even when an earlier one meets something it does not understand: what the others find is
+    # reported (exit 1) together with the ANALYSIS-ERROR of the first clause that failed
+    first_error = None
+    for clause in (clause_a, clause_b, clause_b2, clause_c, clause_d, clause_e, clause_g, clause_i, clause_h, clause_f,
+                   lambda c_: sweep_records(c_, 'C14-rec', ['exactly_lib.type_val_prims.string_source',
+                                                             'exactly_lib.impls.types.string_source'], floor=2)):
+        try:
+            clause(c)
+        except AnalysisError as ex:
+            if first_error is None:
+                first_error = ex
+    if first_error is not None:
+        raise first_error
 
 
 def _text_value_modules(ix: Index):
@@ -457,6 +459,23 @@ def clause_d(c: Check):
                          'a text is opened with newline=%s: its line ends are translated differently from every other '
                          'access' % unparse(v), '%s:%d' % (m.relpath, node.lineno))
     c.floor('C14-d', 'newline= arguments', n, 1)
+    # ... and no access decodes the file differently from the others: an `encoding=` / `errors=` argument at one
+    # open() gives that view other characters (a byte order mark dropped, undecodable bytes replaced) than the views
+    # that open the same file the ordinary way - among them every consumer of the path handed out by `as_file`
+    n_open = 0
+    for name in _text_value_modules(ix):
+        m = ix.module(name)
+        for node in ast.walk(m.tree):
+            if isinstance(node, ast.Call) and ((isinstance(node.func, ast.Attribute) and node.func.attr == 'open')
+                                               or (isinstance(node.func, ast.Name) and node.func.id == 'open')):
+                n_open += 1
+                for k in node.keywords:
+                    if k.arg in ('encoding', 'errors'):
+                        f = m.enclosing_func(node)
+                        c.bad('C14-d', 'decoding-argument@%s/%s' % (f.key if f else name, k.arg),
+                              'a text is opened with %s=%s: this access decodes the file differently from every other '
+                              'access to the same text' % (k.arg, unparse(k.value)), '%s:%d' % (m.relpath, node.lineno))
+    c.floor('C14-d', 'open() calls in the modules of text values', n_open, 6)
 
 
 # ---------------------------------------------------------------- e
